@@ -170,6 +170,13 @@ def fold_items(f):
                 # name the element by the container it comes from, not by the loop variable (stable under renaming the variable)
                 import re as _re
                 txt = _re.sub(r"\b%s\b" % _re.escape(lp["var"]), "%s[]" % expr_plain(lp.child("range")).replace("this->", ""), txt)
+            elif lp.get("k") == "for":
+                # the same list walked by index or by iterator: same name
+                for l2, en, cont in E.whole_container_loops(f, "", full=True):
+                    if l2 is lp and en:
+                        cname = cont.replace("this->", "")
+                        txt = txt.replace(en, cname + "[]") if en in txt else txt
+                        txt = txt.replace("[].", "[].").replace("[]->", "[].")
             items.append(("list", d, txt[:60], loop_id(f, lp), c))
         elif d.startswith("list:"):
             items.append(("list", d[5:], expr_str(core(a))[:40], None, c))
